@@ -711,9 +711,12 @@ func (s *zzSim) newPayment() {
 	default:
 		p.route = [][]int{{zzB, zzA}, {zzB, zzC}}[r.Draw(2)]
 	}
-	if p.sender() == zzB && s.crashArmed {
-		// an own payment cut in half by the crash of the SENDER is the
-		// router's business, not the forwarder's
+	if p.sender() == zzB && (s.cfg.arm == "restart" || s.cfg.arm == "crash") {
+		// A payment whose SENDER restarts while its HTLC sits only in
+		// the outgoing link's in-memory mailbox keeps a pending
+		// circuit and never gets a result: the router's business, not
+		// the forwarder's (see report). Bob only pays in the arms that
+		// never restart him.
 		p.route = []int{zzA, zzB, zzC}
 	}
 	switch v := r.Draw(20); {
